@@ -278,8 +278,43 @@ def retag(rng, reqs):
         out.append(','.join(f))
     return out
 
+def nest(rng, reqs, p=0.4):
+    """with probability p turn the sequence into an outline: a request of depth d+1 is sent by the harness from
+    inside the completion callback of the closest preceding request of depth d (re-entrant use of the
+    responder, as a queueing controller does); listed in execution order"""
+    if rng.random() >= p:
+        return reqs
+    out, d = [], 0
+    for i, r in enumerate(reqs):
+        d = 0 if i == 0 else rng.choice([0, 0, d, d, min(d + 1, 3), min(d + 1, 3)])
+        out.append('%d@%s' % (d, r) if d else r)
+    return out
+
 def seq_case(rng, kind, reqs):
-    return 'sweep %s %d %s' % (kind, OWN, '/'.join(retag(rng, reqs)))
+    return 'sweep %s %d %s' % (kind, OWN, '/'.join(nest(rng, retag(rng, reqs))))
+
+def gen_nested(rng, tier):
+    """re-entrancy aimed at the fan-out: SETs to ALL_RDM_SUBDEVICES whose completion callback sends further
+    requests (another fan-out, a sub-device, the root), several levels deep, on a long-lived responder"""
+    for n in (1, 2, 4, 8):
+        kind = 'dimmer' if n == 2 else 'dimmer%d' % n
+        for _ in range(6 if tier == 'quick' else 80):
+            seq, d = [], 0
+            for i in range(rng.choice([6, 12, 30])):
+                d = 0 if i == 0 else rng.choice([0, d, min(d + 1, 4), min(d + 1, 4)])
+                k = rng.random()
+                if k < 0.45:
+                    r = req(OWN, 0xffff, SET, rng.choice([0x1000, 0x1000, 0x1040]), [rng.choice([0, 1, 0xff])])
+                elif k < 0.6:
+                    r = req(DESTS[rng.choice(['bcast', 'vcast', 'other'])], 0xffff, SET, 0x1000, [rng.randrange(2)])
+                elif k < 0.8:
+                    r = req(OWN, rng.choice([0, 1, n, n + 1]), rng.choice([GET, SET]), rng.choice([0x1000, 0xf0, 0x60]),
+                            rdata(rng, rng.choice([0, 1, 2])))
+                else:
+                    r = req(OWN, 0xffff, GET, 0x1000, [])
+                seq.append((d, r))
+            rs = retag(rng, [r for _, r in seq])
+            yield 'sweep %s %d %s' % (kind, OWN, '/'.join(('%d@%s' % (d, r) if d else r) for (d, _), r in zip(seq, rs)))
 
 def gen_acktimer(rng, tier):
     """ack-timer histories: SETs answered with ACK_TIMER, the harness' virtual clock advances 150 ms per
@@ -345,7 +380,7 @@ def gen_ackt(rng, tier):
         return dt, r
     for _ in range(150 if tier == 'quick' else 4000):
         steps = [step() for _ in range(rng.choice([6, 16, 40]))]
-        reqs = retag(rng, [r for _, r in steps])
+        reqs = nest(rng, retag(rng, [r for _, r in steps]))
         yield 'ackt %d %s %s' % (OWN, strs, '/'.join('%d:%s' % (dt, r) for (dt, _), r in zip(steps, reqs)))
     # more than 255 queued messages: the message count saturates
     steps = [(0, req(OWN, 0, SET, 0x1000, [i & 1])) for i in range(300)] + [(500, req(OWN, 0, GET, 0x60, []))] + \
@@ -514,6 +549,8 @@ def gen_resp(rng, tier):
                 r = req(DESTS[rng.choice(['own'] * 5 + sorted(DESTS))], sub, cc, pid, rdata(rng, rng.choice(LENS[:10])))
             seq.append(r)
         return retag(rng, seq)
+    def fin(seq):
+        return '/'.join(nest(rng, seq))
     strs = _label_strings('OLA Sensor Device', 'Sensor Device')
     for _ in range(80 if quick else 2500):
         ns = rng.choice([3, 3, 3, 0])
@@ -527,7 +564,7 @@ def gen_resp(rng, tier):
                 f[4], f[5], f[6] = '0', str(rng.choice([GET, SET])), str(pid)
                 f[7] = hx([rng.choice([0, 1, 2, 3, 254, 255])])
                 seq[i] = ','.join(f)
-        yield 'resp sensor %d %s %s %s' % (OWN, strs, init, '/'.join(seq))
+        yield 'resp sensor %d %s %s %s' % (OWN, strs, init, fin(seq))
     import time as _time
     strs = _label_strings('OLA Moving Light', '-')
     ver = _re.search(r'#define VERSION "([^"]*)"', open(_repo_file('config.h')).read()).group(1)
@@ -552,13 +589,13 @@ def gen_resp(rng, tier):
             elif k < 0.3:
                 f[4], f[5], f[6], f[7] = '0', str(SET), str(0xf0), hx([rng.choice([0, 1, 1, 2]), rng.randrange(256)])
             seq[i] = ','.join(f)
-        yield 'resp moving %d %s %s %s' % (OWN, strs, init, '/'.join(seq))
+        yield 'resp moving %d %s %s %s' % (OWN, strs, init, fin(seq))
     strs = _label_strings('OLA Dimmer', 'Dummy Dimmer')
     for n in (0, 1, 2, 4, 8):
         kind = 'dimmer' if n == 2 else 'dimmer%d' % n
         for _ in range(30 if quick else 600):
             seq = walk(kind, [0, 0, 1, 1, 2, n, n + 1, 0xffff, 0xffff], rng.choice([8, 24, 48]))
-            yield 'resp dimmer%d %d %s - %s' % (n, OWN, strs, '/'.join(seq))
+            yield 'resp dimmer%d %d %s - %s' % (n, OWN, strs, fin(seq))
 
 def chunks(l, n):
     for i in range(0, len(l), n):
@@ -729,7 +766,7 @@ def gen_help(rng, tier):
             yield 'help 23 %s %d -' % (R(rdata(rng, n, False)), rng.choice(mcs))
 
 def gen_cases(rng, tier):
-    for g in (gen_disp, gen_fan, gen_help, gen_ackt, gen_acktimer, gen_block, gen_fields, gen_resp, gen_sweeps):
+    for g in (gen_disp, gen_fan, gen_help, gen_ackt, gen_acktimer, gen_block, gen_nested, gen_fields, gen_resp, gen_sweeps):
         for c in g(rng, tier):
             yield c
 
@@ -758,11 +795,12 @@ RULE = ('disp: scripted handler table on the real ResponderOps x PID {placeholde
         'and the value boundaries of each comparison; sweep: every built-in responder, all supported PIDs + neighbours/boundary '
         'PIDs (thorough: all 65536) x class x sub-device x destination x parameter lengths, in sequences of 40-512 requests with a '
         'snapshot of all GET-able parameters around every SET, every reply judged by the extracted chk_sweep, transaction number '
-        'and controller UID different on neighbouring requests; fields: for every GET/SET described in the PID store (/repo/data/rdm) each field in turn at its descriptor range/label values +-1 and the generic width boundaries with the other fields valid; block: DMX_BLOCK_ADDRESS after per-sub-device changes on dimmers with 0/1/2/4/8 sub-devices; ackt: ack-timer histories with explicit clock steps around 400 ms '
+        'and controller UID different on neighbouring requests; fields: for every GET/SET described in the PID store (/repo/data/rdm) each field in turn at its descriptor range/label values +-1 and the generic width boundaries with the other fields valid; block: DMX_BLOCK_ADDRESS after per-sub-device changes on dimmers with 0/1/2/4/8 sub-devices; nesting: in ~40% of all sweep/ackt/resp sequences (and in a fan-out aimed class) requests are sent from INSIDE the completion callback of an earlier request, up to 4 levels deep, on the same long-lived responder (re-entrancy); the after-snapshot of a SET is then taken at the moment its callback runs; ackt: ack-timer histories with explicit clock steps around 400 ms '
         '(SET->ACK_TIMER, queued-message delivery, STATUS_GET_LAST_MESSAGE, >255 queued), full replies compared with AckTimer.v; resp: random/field-wise histories on the sensor responder, dimmers with 0/1/2/4/8 sub-devices and the moving light, full replies and final state compared with Responders.v / MovingLight.v. '
         'non-trivial = helper ACK / one completion carrying a response / a fully conformant sequence containing GETs and SETs; '
         'distinct = distinct model output line')
-ASSUMPTIONS = ['the completion callback passed to a responder is not NULL (HandleRDMRequest returns without completing otherwise)',
+ASSUMPTIONS = ['the models are sequential: a request issued from inside a completion callback is modelled as the next request (the callback is the last action of every responder entry point); the harness checks that equivalence on the real code by sending nested requests',
+               'the completion callback passed to a responder is not NULL (HandleRDMRequest returns without completing otherwise)',
                'operator new does not fail',
                'every sub-device handed to SubDeviceDispatcher completes its callback exactly once (c13_fanout hypothesis; true of DimmerSubDevice by c13_dispatch_once)',
                'snapshots exclude volatile readings: REAL_TIME_CLOCK, SENSOR_VALUE (random / load-average sensors), QUEUED_MESSAGE, and the host network PIDs of the dummy responder; self-incrementing counters (DEVICE_HOURS, LAMP_HOURS, DEVICE_POWER_CYCLES) are written back after being read',
